@@ -270,7 +270,9 @@ func smallInline(fn *ssa.Function) bool {
 }
 
 func runC12(c *Ctx) {
+	defer checkClientGetters(c, "C12.R7", clientGetter{"DefaultClient", "GetScopes", "Scopes", ""}, clientGetter{"DefaultClient", "GetAudience", "Audience", ""})
 	defer checkStoreLooksUp(c, "C12.R5", "GetPublicKeyScopes", 2, 3, 4)
+	defer checkAccessRequestPopulated(c, "C12.R6")
 	defer checkConfigGetters(c, "C12.R4", "GetScopeStrategy", "GetAudienceStrategy")
 	const rule = "C12.R1"
 	issueSinks := []string{".IssueAuthorizeCode", ".CreateAuthorizeCodeSession", ".CreateAccessTokenSession", ".GenerateAccessToken", ".GenerateAuthorizeCode", ".GenerateIDToken", ".IssueImplicitIDToken", ".IssueImplicitAccessToken"}
